@@ -47,5 +47,13 @@ CHECKS += [
          technique="property-based fault-injection testing in the cluster simulation with an instant-of-effect oracle on fake-server ground truth"),
 ]
 
+CHECKS += [
+    dict(property_id="C07", category="fault_enumeration",
+         text="The manager is killed (all connections vanish without close, session lingers until expiry) or loses ZooKeeper at its k-th external call - each SQL statement and each ZooKeeper write of the switchover, a ZooKeeper call cut before or after taking effect - for generated scenarios (quick: k drawn) and, in the thorough tier, for EVERY k of every scenario of a fixed grid x 2 successors; the successor daemons then run to quiescence and the C02 end-state oracle plus 'request no longer pending' are evaluated on ground truth. Crash points are call boundaries; a crash between two local actions is equivalent to a neighbouring point for everything observed except local files.",
+         design_ref="DESIGN.md section 4, C07",
+         note="Trusted: as C02; K (calls of the procedure) is measured per run by the fakes.",
+         technique="fault enumeration over external call boundaries in the cluster simulation (property-based sampling in quick, exhaustive grid in thorough) with an end-state oracle"),
+]
+
 _claimed = {c["property_id"] for c in CHECKS}
 NOT_APPLICABLE = [dict(property_id=p, reason="check not built yet in this revision (framework under construction; see DESIGN.md build order)") for p in ALL if p not in _claimed]
